@@ -490,9 +490,11 @@ func (rp *replayer) tryCandidate(roots []*xnode, wnames []string, n int) {
 		expect = "true"
 	}
 	body.WriteString("\texpectPanic := " + expect + "\n")
-	if len(fr.Havoced) > 0 {
+	if len(fr.Havoced) > 0 || c.MayPanic || c.NoSafety {
 		// the function calls code outside the model (havoced): a panic may come
-		// from the replay environment (no database, no network), not from the input
+		// from the replay environment (no database, no network), not from the input;
+		// or the contract allows panics / does not claim run-time safety: a panic
+		// is not a violation of it
 		body.WriteString("\tif panicked != nil && !expectPanic {\n\t\tt.Logf(\"REPLAY-NOTE: panic %v (the function calls code outside the model; inconclusive)\", panicked)\n\t\treturn\n\t}\n")
 	} else {
 		body.WriteString("\tif panicked != nil && !expectPanic {\n\t\tt.Fatalf(\"REPLAY-FAIL: the real code panics on this input: %v\", panicked)\n\t}\n")
